@@ -65,6 +65,16 @@ CLAIMED = {
             'run_tagging_task is an assumed contract at its call site; MoleculeIterator fragment conservation and '
             'write_pysam loops not under contract yet; bounded siblings (1..4 contigs) reported separately.',
             '5/C05'),
+    'C20': ('Typestate proof over the real control flow: a ghost monitor (status text, closed/sorted/indexed/merged flags) is '
+            'evaluated after every statement and on every exceptional edge of tag_multiome_single_thread (with the real '
+            'sorted_bam_file context manager executed inline, every external step allowed to raise at every call and for any '
+            'number of molecules via a loop contract) and of the merge/cleanup/status tail of tag_multiome_multi_processing: '
+            'the status says success only when the output is finalised; and run_tagging_tasks returns normally only if no task '
+            'failed (failures propagate through the real context manager).',
+            'Exceptions at call boundaries stand for failures/kills between steps; a kill inside one external call, the '
+            'atomicity of write_status and --cluster mode are outside; the initial "unfinished" status and the absence of other '
+            'status writes before the multiprocess tail are assumed (the latter checked syntactically); A4 for sort/index/merge.',
+            '5/C20'),
 }
 
 NOT_YET = 'check not built yet (framework under construction; see DESIGN.md section 5)'
